@@ -902,4 +902,167 @@ theorem hoisted_type_lookup_counterexample :
 
 end Witness
 
+/-! ## every protocol version
+
+The wrapper `call` never sees the session. The protocol version a peer negotiated enters in the
+dispatcher, `(*Server).callTool`, between the wrapper and the wire — modelled by `deliver`, and by
+`serve since v` for the two together. The theorems below are C16's clauses about what THE PEER is answered
+(`(serve since v E t h a).out`), for EVERY version string `v` (and every threshold `since`): there is no
+exception. What the SDK documents for peers older than SEP-2106 (non-object structured content) is not a
+different result but an ADDITIONAL text block (`text_fallback_iff_no_content`, second half: the serialised
+structured content is appended to the handler's own content whenever it is not an object), "so that
+pre-SEP-2106 clients can recover the structured payload from unstructured content" (server.go, comment in
+`toolForErr`) — at every version, too. The one thing that does depend on the version is the `resultType`
+mark (`result_type_complete_iff`), which C16 does not speak about. That `deliver` is the dispatcher the code
+has is the obligation `dispatcher_assigns_only_content` on the regenerated table (`DispatchTable.lean`) plus the
+structural facts `typedtool.callTool_after_handler_*`. -/
+
+/-- the dispatcher hands the wrapper's outcome on as it is -/
+theorem deliver_out (m : Bool) (o : Outcome) : (deliver m o).out = o := by
+  unfold deliver
+  split <;> rfl
+
+/-- **at every protocol version the peer is answered with the wrapper's own outcome** -/
+theorem served_is_wrapper_outcome (since v : String) (E : Env S) (t : Tool S) (h : JVal → HRet) (a : Args) :
+    (serve since v E t h a).out = call E t h a := deliver_out _ _
+
+/-- … so two peers at different versions making the same call are answered alike -/
+theorem served_version_independent (since v v' : String) (E : Env S) (t : Tool S) (h : JVal → HRet) (a : Args) :
+    (serve since v E t h a).out = (serve since v' E t h a).out := by
+  rw [served_is_wrapper_outcome, served_is_wrapper_outcome]
+
+/-- **structured content = JSON of the output with the schema's defaults, at every protocol version**
+(`structured_equals_output_json_with_defaults` for what the peer is answered). -/
+theorem structured_equals_output_json_with_defaults_at_every_version (since v : String)
+    (E : Env S) (t : Tool S) (h : JVal → HRet) (a : Args) (x j : JVal) (s : S)
+    (hs : (serve since v E t h a).out.seen = some x) (he : (h x).err = none)
+    (hout : outJson t (h x).out = some j) (hsch : t.outSchema = some s)
+    (hok : (serve since v E t h a).out.kind = .ok) :
+    (serve since v E t h a).out.structured = some (if (outForm E t s j).2 then (outForm E t s j).1 else j) := by
+  rw [served_is_wrapper_outcome] at hs hok ⊢
+  exact structured_equals_output_json_with_defaults E t h a x j s hs he hout hsch hok
+
+/-- **a declared output type or schema ⇒ a successful result carries structured content, at every
+protocol version** — whatever JSON kind the output is. -/
+theorem success_has_structured_at_every_version (since v : String)
+    (E : Env S) (t : Tool S) (h : JVal → HRet) (a : Args) (x : JVal)
+    (hs : (serve since v E t h a).out.seen = some x) (he : (h x).err = none)
+    (hok : (serve since v E t h a).out.kind = .ok) (hsch : t.outSchema.isSome = true) :
+    (serve since v E t h a).out.structured.isSome = true := by
+  rw [served_is_wrapper_outcome] at hs hok ⊢
+  exact success_has_structured E t h a x hs he hok hsch
+
+/-- **structured content is valid, at every protocol version** -/
+theorem structured_valid_at_every_version (since v : String)
+    (E : Env S) (t : Tool S) (h : JVal → HRet) (a : Args) (x sc : JVal) (s : S)
+    (hs : (serve since v E t h a).out.seen = some x) (he : (h x).err = none)
+    (hsch : t.outSchema = some s) (hok : (serve since v E t h a).out.kind = .ok)
+    (hsc : (serve since v E t h a).out.structured = some sc) :
+    E.valid s sc = true ∨ (E.valid s (E.remarshal sc) = true ∧ (outForm E t s sc).2 = false) := by
+  rw [served_is_wrapper_outcome] at hs hok hsc
+  exact structured_valid E t h a x sc s hs he hsch hok hsc
+
+/-- **the text rendering, at every protocol version**: one block holding the serialised structured content
+when the handler set no content; else the handler's content, followed by that block iff the structured
+content is not a JSON object (what a peer older than SEP-2106 recovers the payload from — but every peer
+gets it, and gets the structured content too). -/
+theorem text_fallback_at_every_version (since v : String)
+    (E : Env S) (t : Tool S) (h : JVal → HRet) (a : Args) (x sc : JVal)
+    (hs : (serve since v E t h a).out.seen = some x) (he : (h x).err = none)
+    (hsc : (serve since v E t h a).out.structured = some sc) :
+    ((h x).content = none → (serve since v E t h a).out.content = [.jsonOf sc]) ∧
+    (∀ c, (h x).content = some c →
+      (serve since v E t h a).out.content = if sc.isObj then c else c ++ [.jsonOf sc]) := by
+  rw [served_is_wrapper_outcome] at hs hsc ⊢
+  exact text_fallback_iff_no_content E t h a x sc hs he hsc
+
+/-- **invalid arguments ⇒ tool-level error result, handler not run, at every protocol version** — in
+particular `arguments` that are no object at all (an array, a string, a number, a boolean: `argsMap` gives
+nothing to validate): never a protocol error (seeded change C16-m12). -/
+theorem invalid_gives_tool_error_at_every_version (since v : String)
+    (E : Env S) (t : Tool S) (h : JVal → HRet) (a : Args)
+    (hinv : ∀ d, defaulted E t.inSchema a = some d → E.valid t.inSchema d = false) :
+    (serve since v E t h a).out.seen = none ∧ (serve since v E t h a).out.kind = .toolError ∧
+      (serve since v E t h a).out.content ≠ [] ∧ (serve since v E t h a).out.structured = none := by
+  rw [served_is_wrapper_outcome]
+  exact invalid_gives_tool_error_without_invocation E t h a hinv
+
+/-- `arguments` of a JSON kind other than object and null decode to nothing: the hypothesis of
+`invalid_gives_tool_error_at_every_version` holds for them under every schema -/
+theorem nonobject_arguments_are_invalid (E : Env S) (s : S) (v : JVal)
+    (hv : ∀ fs, v ≠ .obj fs) (hn : v ≠ .null) : defaulted E s (.val v) = none := by
+  cases v with
+  | null => exact absurd rfl hn
+  | obj fs => exact absurd rfl (hv fs)
+  | bool b => rfl
+  | num n => rfl
+  | str s => rfl
+  | arr xs => rfl
+
+/-- **what does depend on the version**: a result (success or tool error) is marked `resultType: complete`
+exactly for a peer at `since` or later; a protocol error carries no result. -/
+theorem result_type_complete_iff (since v : String) (E : Env S) (t : Tool S) (h : JVal → HRet) (a : Args) :
+    (serve since v E t h a).resultType = some .complete ↔
+      ¬ v < since ∧ (call E t h a).kind ≠ .rpcError := by
+  unfold serve deliver supportsMultiRoundTrip
+  cases hk : (call E t h a).kind <;> by_cases hv : v < since <;> simp [hv]
+
+/-- … and nothing else is ever set by a typed tool's call -/
+theorem result_type_none_or_complete (since v : String) (E : Env S) (t : Tool S) (h : JVal → HRet) (a : Args) :
+    (serve since v E t h a).resultType = none ∨ (serve since v E t h a).resultType = some .complete := by
+  unfold serve deliver
+  split
+  · exact .inl rfl
+  · split
+    · exact .inr rfl
+    · exact .inl rfl
+
+section VersionWitness
+
+/-- `{"type":"integer"}` as the output schema of `func(…, In) (…, int64, error)` -/
+def nSchema : Schema := .mk { ty := [.integer] } [] none none
+def nTool : Tool Schema := { wTool with outSchema := some nSchema, outRootObject := false }
+/-- the handler returns 42 -/
+def nRet : JVal → HRet := fun _ => { out := .json (.num (.ofInt 42)) }
+
+/-- the dispatcher of seeded change C16-m11: non-object structured content is dropped for a peer older
+than SEP-2106 -/
+def deliverStripping (sep2106 : Bool) (o : Outcome) : Outcome :=
+  match o.structured with
+  | some sc => if !sc.isObj && !sep2106 then { o with structured := none } else o
+  | none => o
+
+/-- non-vacuity of the `…_at_every_version` theorems: a typed tool with a NUMBER output, called by a peer
+at any version whatever, is answered with structured content 42 and the text block holding it -/
+theorem number_output_is_structured_at_every_version (v : String) :
+    structEqv (serveAt v (refEnv lossy64) nTool nRet (wArgs 7)).out (.num (.ofInt 42)) = true ∧
+    (serveAt v (refEnv lossy64) nTool nRet (wArgs 7)).out.kind = .ok ∧
+    (serveAt v (refEnv lossy64) nTool nRet (wArgs 7)).out.content.length = 1 := by
+  unfold serveAt
+  rw [served_is_wrapper_outcome]
+  decide
+
+/-- **why the dispatcher matters (the shape of seeded change C16-m11)**: with a dispatcher that strips
+non-object structured content for older peers, the same successful call under a declared output schema
+is answered WITHOUT structured content — `success_has_structured` is false of what the peer receives,
+although the wrapper produced it; an object output is not affected. -/
+theorem legacy_stripping_counterexample :
+    (call (refEnv lossy64) nTool nRet (wArgs 7)).structured.isSome = true ∧
+    (deliverStripping false (call (refEnv lossy64) nTool nRet (wArgs 7))).kind = .ok ∧
+    (deliverStripping false (call (refEnv lossy64) nTool nRet (wArgs 7))).structured.isNone = true ∧
+    (deliverStripping true (call (refEnv lossy64) nTool nRet (wArgs 7))).structured.isSome = true ∧
+    (deliverStripping false (call (refEnv lossy64) wTool wEcho (wArgs 7))).structured.isSome = true := by decide
+
+/-- the two sides of `result_type_complete_iff` on the regenerated threshold: a peer at the SDK's latest
+version sees `complete`, a peer at the oldest supported version does not, a protocol error never -/
+example : (serveAt Generated.TypedTool.latestProtocolVersion (refEnv lossy64) nTool nRet (wArgs 7)).resultType = some .complete := by decide
+example : (serveAt "2024-11-05" (refEnv lossy64) nTool nRet (wArgs 7)).resultType = none := by decide
+example : "2024-11-05" ∈ Generated.TypedTool.supportedProtocolVersions := by decide
+example : (serveAt Generated.TypedTool.latestProtocolVersion (refEnv lossy64) nTool (fun _ => { err := some .rpc }) (wArgs 7)).resultType = none := by decide
+/-- `arguments` that are an array: a tool-level error result, the handler did not run -/
+example : (serveAt "2025-06-18" (refEnv lossy64) nTool nRet (.val (.arr [.num (.ofInt 1)]))).out.kind = .toolError ∧
+    (serveAt "2025-06-18" (refEnv lossy64) nTool nRet (.val (.arr [.num (.ofInt 1)]))).out.seen.isNone = true := by decide
+
+end VersionWitness
+
 end TypedTool
